@@ -518,6 +518,7 @@ class Index:
         self.dehoisted = 0
         for mi in self.modules.values():
             self.canonicalised += _canon_setdefault(mi.tree) + _canon_extend(mi.tree) + _canon_append_loop(mi.tree) + _canon_enumerate(mi.tree)
+            self.canonicalised += _canon_items(mi.tree)  # before de-hoisting: `v = d[k]` in a key loop is the loop's value, not a hoisted chain
             self.dehoisted += dehoist_chains(mi.tree)
             self.canonicalised += _canon_returns(mi.tree) + _canon_augassign(mi.tree) + _canon_items(mi.tree) + _canon_allany(mi.tree) + _canon_tuple_assign(mi.tree) + _canon_membership(mi.tree)
         for mi in self.modules.values():
